@@ -45,3 +45,7 @@ Definition ex_measure : pstate :=
        ("w", ESub (ENum 10%float) (EMul (ENum 10%float) (EVar "v")));
        ("v", ENum 1%float); ("t", EVar "k")] [] [] []
       [("x", ICVal 0%float); ("y", ICVal 0%float); ("w", ICVal 10%float); ("v", ICVal 0%float)] 2 tol6 400.
+
+(** D11b on the unfixed code: x = 0.0 with x(0) = NaN (bare ZeroDivisionError from NaN / 0.0) *)
+Definition ex_measure_nan : pstate :=
+  mkP [("x", ENum 0%float); ("t", EVar "k")] [] [] [] [("x", ICVal nan)] 1 tol6 400.
